@@ -174,6 +174,8 @@ def build(reg, src):
     # ---------------- Iterate / Scan-Iterating
     def it_setup(eng, st):
         st.env['a'] = fresh(Int, 'count')
+        # a count that was COMPUTED (1+1, #x, x@0 ...) is a NumPy integer, not a Python int: the value is the same, the class is not
+        st.ghost['count_is_python_int'] = fresh(Bool, 'count_is_python_int')
         st.env['b'] = VOpaque(hint='b0', nonnull=True)
         st.env['f'] = VFunc('f', model=f1_model)
         st.env['backend'] = VOpaque(hint='backend', nonnull=True)
@@ -183,6 +185,24 @@ def build(reg, src):
            pre_hints=[lambda s: VBool(iter_unfold(z3.IntVal(0), s.b.t))],
            loops={0: loop(invariant=it_inv, hints=it_hint, variant=lambda s: s.a, havoc=dict(b='nonnull'))},
            ensures=[lambda s, r: VBool(r.t == ITER(s.a0.t, s.b0.t))])
+
+    def as_seq(e_obj, v):
+        if isinstance(v, VList):
+            units = [z3.Unit(e_obj(x)) for x in v.items]
+            return VSeq(units[0] if len(units) == 1 else z3.Concat(*units)) if units else VSeq(z3.Empty(SeqObj))
+        return v
+
+    def si_post(s, r):
+        n = s.a0.t
+        if not is_seq(r):
+            return And(VBool(n == 0), same(r, s.b0))
+        return And(VBool(n >= 1), elementwise(r, n + 1, lambda i: ITER(i, s.b0.t)))
+    si_inv = [lambda s: s.a >= 0, lambda s: s.a <= s.a0, lambda s: VBool(s.b.t == ITER((s.a0 - s.a).t, s.b0.t)),
+              lambda s: elementwise(as_seq(lambda x: x.t, s.r), (s.a0 - s.a + 1).t, lambda i: ITER(i, s.b0.t)) if isinstance(s.r, (VSeq, VList)) else VBool(False)]
+    reg.fn(AD + 'eval_adverb_scan_iterating', setup=it_setup, requires=[lambda s: s.a >= 0], returns='opaque',
+           pre_hints=[lambda s: VBool(iter_unfold(z3.IntVal(0), s.b.t))],
+           loops={0: loop(invariant=si_inv, hints=it_hint, variant=lambda s: s.a, havoc=dict(b='nonnull', r=SeqObj))},
+           ensures=[si_post])
 
     # ---------------- dispatch tables
     def check_tables(ctx):
@@ -266,9 +286,34 @@ def build(reg, src):
                             detail='; '.join(bad[:3]) or 'every shortcut names the ufunc of its own operator under its guard'))
         return res
     reg.extra_checks.append(check_tables)
+
+    # (bounded, labelled) every adverb on a grid of verbs and operands against the written-out applications of the verb
+    def expansion_oracle(ctx):
+        from pyvc.run import run_replay
+        import replay.c02_oracle as orc
+        r = run_replay(lambda inputs, name: dict(rows=orc.grouped_rows()), {}, 'expansion-oracle', timeout_s=240)
+        rows_ = r.get('rows') if isinstance(r, dict) else None
+        if not rows_:
+            return [dict(name='expansion-oracle(bounded)::harness', ok=False, undecided=True, backend='native-execution (bounded)', detail=str(r)[:300])]
+        return [dict(name=f"expansion-oracle(bounded)::{g}", ok=bool(ok), backend='native-execution (bounded)', detail=d, confirmed=not ok) for g, ok, d in rows_]
+    expansion_oracle.__name__ = 'expansion-oracle'
+    reg.extra_checks.append(expansion_oracle)
+    reg.bounded.append(dict(check='expansion-oracle', tool='native evaluation of the adverb expression vs. separately evaluated plain applications of the verb',
+                            bound='10 dyadic verbs x 13 operands x 7 adverbs, 4 monads x Each, Iterate/Scan-Iterating with literal and computed counts, 6 two-adverb chains (about 600 cases)',
+                            result='see rows'))
+
+    # safe_eq is modelled below from its source: keep the model tied to it
+    def safe_eq_source(ctx):
+        fn = ctx['src'].find(T + 'safe_eq')
+        txt = ast.unparse(fn.body[-1]) if fn is not None else None
+        ok = txt == 'return isinstance(a, type(b)) and a == b'
+        return [dict(name=T + 'safe_eq#body-as-modelled', ok=ok, undecided=not ok, backend='ast-structural',
+                     detail='safe_eq(a, b) is `isinstance(a, type(b)) and a == b` (the model used for counts)' if ok else f"safe_eq is now {txt!r}: the model of it is out of date")]
+    reg.extra_checks.append(safe_eq_source)
     from pyvc.leancheck import lean_check
     reg.extra_checks.append(lean_check('Folds.lean', ['foldl_cons', 'scanl_last']))
     from replay import c02 as rp
+    reg.replays.append((r'eval_dyad_adverb_iterate|eval_adverb_scan_iterating', rp.replay_iterate_counts))
     reg.replays.append((r'.', rp.replay_adverbs))
 
 
@@ -293,7 +338,13 @@ def configure(eng):
     X['backend.kg_asarray'] = lambda e, st, a, k, n: [(st, to_seq(e, st, a[0]))]
     X['bknp.asarray'] = lambda e, st, a, k, n: [(st, to_seq(e, st, a[0]))]
     X['backend.str_to_chr_arr'] = lambda e, st, a, k, n: [(st, VSeq(CHARS(a[0].t)) if isinstance(a[0], VStr) else a[0])]
-    X['safe_eq'] = lambda e, st, a, k, n: [(st, (a[0] == a[1]) if isinstance(a[0], VInt) else VBool(z3.Const(fresh_name('safe_eq'), Bool)))]
+    def safe_eq_model(e, st, a, k, n):
+        # isinstance(a, type(b)) and a == b: for an integer count compared with the literal 0 the class test is the ghost flag
+        if isinstance(a[0], VInt):
+            flag = st.ghost.get('count_is_python_int')
+            return [(st, And(flag, a[0] == a[1]) if flag is not None else (a[0] == a[1]))]
+        return [(st, VBool(z3.Const(fresh_name('safe_eq'), Bool)))]
+    X['safe_eq'] = safe_eq_model
 
     def reduce_(e, st, a, k, n):
         f, seq = a[0], a[1]
@@ -377,6 +428,9 @@ def configure(eng):
     eng.getattr = getattr2
 
     def method(e, o, m, args, kwargs, st, node):
+        if isinstance(o, VSeq) and m == 'append':
+            e.rebind(st, o, VSeq(z3.Concat(o.t, z3.Unit(e.as_obj(args[0])))))
+            return [(st, NONE)]
         if isinstance(o, VStr) and m == 'join':
             j = VOpaque(hint='joined', nonnull=True)
             j.joined = True          # a character array re-joined into a string: string operands are outside this contract
